@@ -580,7 +580,7 @@ func (c *Component) forwardDHCPv6ToProvider(sess *SessionState, pkt *dataplane.P
 	if provider == nil {
 		return fmt.Errorf("no DHCPv6 provider available")
 	}
-	response, err := provider.HandlePacket(c.Ctx, dhcpPkt)
+	response, err := c.handleResolvedV6(provider, dhcpPkt)
 	if err != nil {
 		return fmt.Errorf("dhcp6 provider failed: %w", err)
 	}
